@@ -85,7 +85,7 @@ func (e *Env) IsKnown(key string) (Finding, bool) {
 
 // ReportKnown prints the KNOWN-FINDING line for a listed finding that still fails.
 func (e *Env) ReportKnown(f Finding, observed string) {
-	line := fmt.Sprintf("KNOWN-FINDING: property=%s key=%s %s", e.Prop, f.Key, f.Text)
+	line := fmt.Sprintf("KNOWN-FINDING: property=%s %s [key=%s]", e.Prop, f.Text, f.Key)
 	fmt.Println(line)
 	e.mu.Lock()
 	e.known = append(e.known, line+" ["+observed+"]")
